@@ -116,3 +116,25 @@ def c08_concurrent(rep, tier):
                           {"engine": "conc", "module": "checks_conc_extra", "scenario": sc, "schedule": h["schedule"], "history": h["ev"]})
     if hs:
         rep.sample({"fanout_scenario": hs[0][0]["threads"], "history": hs[0][1]["ev"][:12]})
+
+
+def c02_raced_ids(rep, tier):
+    """C02 under a race: the same preserve_context callable invoked from two threads must never yield two messages with the
+    same (task_uuid, task_level) (the level-A clause `duplicate_task_level` of OnceA.tla, evaluated by TLC)."""
+    quick = tier == "quick"
+    rng = random.Random(SEED + 2)
+    scs = [{"kind": "once", "threads": {"T1": 1, "T2": 1}, "raises": False, "max_pre": 2, "cap": 150 if quick else 6000,
+            "random": 30 if quick else 1000, "seed": rng.randint(0, 10 ** 9), "budget_s": 60 if quick else 300}]
+    results = run_scenarios(scs)
+    hs = [(res["scenario"], h) for res in results for h in res["runs"]]
+    acc, st = tlc_accepts("OnceA", "OnceA.cfg", [h for _, h in hs])
+    rep.cov["states"] += st
+    rep.cov["transitions"] += st
+    for (sc, h), a in zip(hs, acc):
+        rep.cov["traces_validated_against_impl"] += 1
+        rep.count_case(["once", sc["threads"], h["schedule"]], len(set(h["schedule"])) > 1)
+        if a is None:
+            raise MachineryFailure("no verdict for a preserve_context history")
+        if h["dup_levels"] or a[2] == "duplicate_task_level":
+            rep.violation("two messages share one (task_uuid, task_level) when a preserve_context callable is invoked from two threads at once",
+                          {"engine": "conc", "module": "checks_conc_extra", "scenario": sc, "schedule": h["schedule"], "history": h["ev"]})
